@@ -19,6 +19,7 @@ Record mid3 := mkMid3 { mj : option jv; my : option jv; mt : option jv }.
    toLowerCaseKeyMap hands to the unmarshaller, for the document and for its twin *)
 Record extra := mkExtra { x_byext : list (string * ob); x_must : list (string * ob); x_fill : ob;
                           x_envref : option ob3 (* LoadFrom*Bytes of the expanded texts *);
+                          x_envmust : option ob3 (* MustLoad / LoadConfig with UseEnv, where Load succeeded *);
                           x_depr : list (string * ob);
                           x_props : list (string * string * option string * option string)
                                     (* key, value as written, GetString without / with UseEnv *);
@@ -232,6 +233,7 @@ Definition prop_gen (same3 : ob3 -> bool) (c : case) : bool :=
            && negb (ob_panics (x_fill x))
            (* Load(.., UseEnv()) = expanding the file's text, then loading it *)
            && match envon, x_envref x with Some l, Some r => ob3_eqb l r | _, _ => true end
+           && match envon, x_envmust x with Some l, Some r => ob3_eqb l r | _, _ => true end
            (* the deprecated wrappers behave like the functions they wrap *)
            && forallb (fun er =>
                          ob_eqb (snd er)
